@@ -1,6 +1,9 @@
 Base/Bytes.vo Base/Bytes.glob Base/Bytes.v.beautified Base/Bytes.required_vo: Base/Bytes.v 
 Base/Bytes.vio: Base/Bytes.v 
 Base/Bytes.vos Base/Bytes.vok Base/Bytes.required_vos: Base/Bytes.v 
+Generated.vo Generated.glob Generated.v.beautified Generated.required_vo: Generated.v Base/Bytes.vo
+Generated.vio: Generated.v Base/Bytes.vio
+Generated.vos Generated.vok Generated.required_vos: Generated.v Base/Bytes.vos
 Model/Resp.vo Model/Resp.glob Model/Resp.v.beautified Model/Resp.required_vo: Model/Resp.v Base/Bytes.vo
 Model/Resp.vio: Model/Resp.v Base/Bytes.vio
 Model/Resp.vos Model/Resp.vok Model/Resp.required_vos: Model/Resp.v Base/Bytes.vos
@@ -22,9 +25,9 @@ Model/ZSets.vos Model/ZSets.vok Model/ZSets.required_vos: Model/ZSets.v Base/Byt
 Model/Streams.vo Model/Streams.glob Model/Streams.v.beautified Model/Streams.required_vo: Model/Streams.v Base/Bytes.vo Model/Resp.vo Model/Types.vo
 Model/Streams.vio: Model/Streams.v Base/Bytes.vio Model/Resp.vio Model/Types.vio
 Model/Streams.vos Model/Streams.vok Model/Streams.required_vos: Model/Streams.v Base/Bytes.vos Model/Resp.vos Model/Types.vos
-Model/Server.vo Model/Server.glob Model/Server.v.beautified Model/Server.required_vo: Model/Server.v Base/Bytes.vo Model/Resp.vo Model/Types.vo Model/Glob.vo Model/Strings.vo Model/Lists.vo Model/ZSets.vo Model/Streams.vo
-Model/Server.vio: Model/Server.v Base/Bytes.vio Model/Resp.vio Model/Types.vio Model/Glob.vio Model/Strings.vio Model/Lists.vio Model/ZSets.vio Model/Streams.vio
-Model/Server.vos Model/Server.vok Model/Server.required_vos: Model/Server.v Base/Bytes.vos Model/Resp.vos Model/Types.vos Model/Glob.vos Model/Strings.vos Model/Lists.vos Model/ZSets.vos Model/Streams.vos
+Model/Server.vo Model/Server.glob Model/Server.v.beautified Model/Server.required_vo: Model/Server.v Base/Bytes.vo Generated.vo Model/Resp.vo Model/Types.vo Model/Glob.vo Model/Strings.vo Model/Lists.vo Model/ZSets.vo Model/Streams.vo
+Model/Server.vio: Model/Server.v Base/Bytes.vio Generated.vio Model/Resp.vio Model/Types.vio Model/Glob.vio Model/Strings.vio Model/Lists.vio Model/ZSets.vio Model/Streams.vio
+Model/Server.vos Model/Server.vok Model/Server.required_vos: Model/Server.v Base/Bytes.vos Generated.vos Model/Resp.vos Model/Types.vos Model/Glob.vos Model/Strings.vos Model/Lists.vos Model/ZSets.vos Model/Streams.vos
 Model/RunBase.vo Model/RunBase.glob Model/RunBase.v.beautified Model/RunBase.required_vo: Model/RunBase.v Base/Bytes.vo Model/Resp.vo
 Model/RunBase.vio: Model/RunBase.v Base/Bytes.vio Model/Resp.vio
 Model/RunBase.vos Model/RunBase.vok Model/RunBase.required_vos: Model/RunBase.v Base/Bytes.vos Model/Resp.vos
